@@ -83,6 +83,21 @@ CHECKS = {
              "keyed data cell from a foreign IP must not open the outside socket; allowed canaries must get out.",
         note="The classifier is my reading of 'BitTorrent-shaped'/'IPv8-shaped'. Exhaustive over two-byte heads only in the "
              "thorough tier; remainder bytes and lengths are sampled."),
+    "C08": dict(
+        level="exploration", design="DESIGN.md 4/C08",
+        technique=TECH + ": real handshakes with retries under loss/duplication/reordering/long delays in virtual time; doctored "
+                         "answers from a misbehaving real node or an on-path rewriter (explicit fault list); at every hop append the "
+                         "route is traced through the relays' tables and session keys compared byte by byte",
+        text="Circuits of 1..3 hops are built with next_hop_timeout 1..10 s so that retries, late and duplicated answers occur "
+             "under seeded loss, duplication, jitter and multi-second tail delays. A misbehaving responder/relay or an on-path "
+             "attacker flips bits in key/auth/identifier/circuit id/candidates, swaps identifiers or circuit ids between pending "
+             "handshakes, replays earlier answers, duplicates answers, or substitutes its own ephemeral key with a correct HMAC. "
+             "Whenever the originator appends a hop: in runs without manipulation the entry reached by following the relays' "
+             "routing tables at the selected peer must hold byte-identical session keys; with manipulation the hop is either "
+             "rejected or the selected peer holds these keys, and accepted keys are never computable from what the adversary "
+             "knows; established hops never change.",
+        note="Trusts X25519/HMAC/HKDF of ipv8_rust_tunnels. A substituted ephemeral key with valid HMAC yields a hop nobody can "
+             "use (broken circuit) which the statement does not forbid and the check does not flag."),
     "C12": dict(
         level="exploration", design="DESIGN.md 4/C12",
         technique=TECH + ": operation histories (incl. snapshot/restart and LRU-overflow configurations) on the real Network "
